@@ -46,7 +46,9 @@ def merge_expressions(exps: BoolExpList) -> BoolExpList:
         e = e.xreplace(emap)
         e = custom_simplify_logic(e)
 
-        if s.name[0:4] != "_ret":
+        # Only the return value (_ret, _ret.0, _ret.0.1, ...) is kept: a user
+        # variable whose name merely starts with _ret is merged like any other
+        if s.name != "_ret" and not s.name.startswith("_ret."):
             emap[s] = e
         else:
             n_exps.append((s, e))
